@@ -41,7 +41,8 @@ def sipWithArith (p : Program) : Bool :=
 
 /-- `jpAlone` = flipping only the join-planning switch already changes the answer (read off the deviating masks) -/
 def classify (p : Program) (jpAlone : Bool) : String :=
-  if jpAlone && unionWithJoin p then "union_with_join_heads"
+  if jpAlone && hasRepeatedVarAtom p then "repeated_variable_in_atom"
+  else if jpAlone && unionWithJoin p then "union_with_join_heads"
   else if (clausesOf p (answeredRel p)).length ≥ 2 || queryRel p != answeredRel p then "last_head_multi_clause"
   else if sipWithArith p then "sip_rule_with_arithmetic_comparison"
   else if hasRepeatedVarAtom p then "repeated_variable_in_atom"
